@@ -204,10 +204,11 @@ class Batch:
             if not prim:
                 if "aborting due to" in msg.get("message", "") or "could not compile" in msg.get("message", ""):
                     continue
-                errs.append((k, None, None, code, msg.get("message", "")))
+                errs.append((k, None, None, code, msg.get("message", ""), msg.get("rendered", "")))
                 continue
             s = outer(prim[0])
-            errs.append((k, os.path.basename(s.get("file_name", "")), s.get("line_start"), code, msg.get("message", "")))
+            errs.append((k, os.path.basename(s.get("file_name", "")), s.get("line_start"), code, msg.get("message", ""),
+                         msg.get("rendered", "")))
         return p.returncode, errs, p.stderr.decode("utf-8", errors="replace")
 
     def compile(self, max_rounds=25):
@@ -219,15 +220,21 @@ class Batch:
             if rc == 0 and not errs:
                 break
             newly = {}
-            for (k, fname, line, code, message) in errs:
+            for (k, fname, line, code, message, rendered) in errs:
                 cid = None
                 where = "module"
+                mods = {modname(c): c for c in self.cases if self.assign[c] == k}
                 if fname and fname.startswith("c_") and fname.endswith(".rs"):
-                    mods = {modname(c): c for c in self.cases if self.assign[c] == k}
                     cid = mods.get(fname[:-3])
                 elif fname == "main.rs":
                     cid = self.linemap[k].get(line)
                     where = "dispatch"
+                if cid is None:
+                    # errors without a usable span (layout cycles, overflow) name the module in their text
+                    named = [m for m in re.findall(r"\bc_[0-9A-Za-z_]+", message + " " + rendered) if m in mods]
+                    if named:
+                        cid = mods[named[0]]
+                        where = "text"
                 if cid is None:
                     raise MachineryError("unattributable compile error in %s (%s:%s) %s: %s\n%s" %
                                          (self.crate(k), fname, line, code, message, stderr[-3000:]))
